@@ -4,11 +4,7 @@ import (
 	sdk "github.com/cosmos/cosmos-sdk/types"
 	protov2 "google.golang.org/protobuf/proto"
 
-	"verifharness/hx"
 )
-
-// extraRunners: module scenarios added as their models land (kept in its own file).
-func extraRunners(env *hx.Env) map[string]hx.Runner { return map[string]hx.Runner{} }
 
 // mockTx is the minimal sdk.Tx the token-fee ante decorator needs.
 type mockTx struct{ msgs []sdk.Msg }
